@@ -340,6 +340,19 @@ func load(T types.Type, addr *value) value {
 
 // store stores value v of type T into *addr.
 func store(T types.Type, addr *value, v value) {
+	if _, isPoison := (*addr).(poison); isPoison {
+		// a cell that was never initialised (lenient package initialisation): the first store replaces it as a whole
+		switch T.Underlying().(type) {
+		case *types.Struct, *types.Array:
+			if _, vp := v.(poison); !vp {
+				*addr = zero(T)
+			}
+		}
+	}
+	if _, vp := v.(poison); vp {
+		*addr = v
+		return
+	}
 	switch T := T.Underlying().(type) {
 	case *types.Struct:
 		lhs := (*addr).(structure)
